@@ -21,6 +21,12 @@ Lemma gen_configs :
   globals_ser_cfg = modelled_cfg /\ globals_de_cfg = modelled_cfg.
 Proof. repeat split; reflexivity. Qed.
 
+(* what is not stored is rebuilt by deserialize: the compiled WASM module (when absent) and
+   the Teddy searcher (always); that the rebuilt parts equal the original's is compared on the
+   implementation (digest) *)
+Lemma gen_rebuilds : de_rebuilds_wasm = true /\ de_rebuilds_teddy = true.
+Proof. split; reflexivity. Qed.
+
 (* ---- auxiliary ---- *)
 Lemma bytes_eqb_eq : forall a b, bytes_eqb a b = true <-> a = b.
 Proof.
